@@ -1,13 +1,13 @@
 """Run Verus on a generated unit file, parse and classify diagnostics (DESIGN §2 step 3/4)."""
 import json, os, re, subprocess, tempfile, time, shutil
 
-OBL_RE = re.compile(r"//\s*OBL:([A-Za-z0-9_+.:\-]+)")
+OBL_RE = re.compile(r"(?://|/\*)\s*OBL:([A-Za-z0-9_+.:\-]+)")
 CANARY_RE = re.compile(r"CANARY:([A-Za-z0-9_:.\-]+)")
 
 FAIL_MSGS = (
     "postcondition not satisfied", "precondition not satisfied", "invariant not satisfied at end of loop body",
     "invariant not satisfied before loop", "assertion failed", "loop invariant not satisfied",
-    "unable to prove assertion", "assertion failure",
+    "unable to prove assertion", "assertion failure", "unable to prove post-condition of closure",
 )
 UNDECIDED_MSGS = ("resource limit", "rlimit", "timed out", "possible arithmetic", "possible division", "decreases not satisfied",
                   "recommendation not met", "possible bit shift")
